@@ -23,6 +23,7 @@ META = {
     "trusted_base": ["ciborium into_writer is deterministic and canonical for Text/Bytes/Array", "RFC 8152 section 4.4 as transcribed in spec/rfc8152.py",
                      "C02 (cbor_bstr yields the stored bytes) and C11 R-3"],
 }
+META["decides"] += " (As built: R-1 reads the strings off element 0 of the structure function's own array; R-3/R-4 are decided per PUBLIC entry point with all crate-local callees expanded in place - it does not matter how the work is split into private helpers; public functions outside the tables that also build a structure are noted.)"
 
 
 def check(ctx):
